@@ -762,7 +762,7 @@ template <class G> int runOne(const std::string &prop, Family fam, bool directed
         cfg.observeEveryTransition = (variant == "n2" || (cfg.maxDepth >= 0 && prop != "C10"));
         Explorer<G> ex(cfg, rep, prop);
         ex.extraStateCheck = stateHook;
-        if (args.has("ops")) return replayHistory<G>(cfg, prop, args);
+        if (args.has("ops")) return replayHistory<G>(cfg, prop, args, ex.extraStateCheck);
         ex.run();
     }
     rep.count("cases", (long long)g_cases);
@@ -770,7 +770,7 @@ template <class G> int runOne(const std::string &prop, Family fam, bool directed
     std::string out = args.get("out", "");
     if (!out.empty() && !rep.write(out)) return 2;
     printf("%s %s: cases=%llu violations=%llu exhaustive=%d wall=%.1fs\n", prop.c_str(), rep.config.c_str(), g_cases, rep.violations(), (int)rep.exhaustive, clock_().elapsed());
-    return 0;
+    return args.has("exitcode") && rep.violations() ? 1 : 0;
 }
 
 int main(int argc, char **argv) {
